@@ -264,7 +264,7 @@ class Real:
             while any(not os.path.exists(os.path.join(self.ctl, "done." + i)) for i in pick) and time.time() - t0 < 5:
                 time.sleep(0.001)
             self.fence()
-        out = proc.communicate()[0].decode("latin-1")
+        out = self.drain(proc, obs)
         self.fence()
         obs.update({"exit": proc.returncode, "started": [self.unsanitize(i) for i in self.started_files()],
                     "finished_in_order": [self.unsanitize(i) for i in finished_order], "out": out,
@@ -291,6 +291,21 @@ class Real:
             except OSError:
                 pass
         return mine
+
+    def drain(self, proc, obs):
+        """Reads ninja's output after it has exited.  A console-pool command shares ninja's stdout: one that ninja left
+        alive keeps the pipe open, and a plain communicate() would wait for it forever."""
+        try:
+            return proc.communicate(timeout=3)[0].decode("latin-1")
+        except subprocess.TimeoutExpired:
+            obs["survivors_holding_the_output"] = [self.unsanitize(x) for x in self.started_files()]
+            obs["stray_pids_at_exit"] = self.stray()
+            self.kill_strays()
+            try:
+                return proc.communicate(timeout=5)[0].decode("latin-1")
+            except subprocess.TimeoutExpired:
+                proc.kill()
+                return proc.communicate()[0].decode("latin-1")
 
     def kill_strays(self):
         for pid in self.stray():
